@@ -29,6 +29,11 @@ INIT_BUDGET = 65536
 GROWTH = 2
 
 
+# ties between the function bodies translated from the Rust source on every run (Gen/Fns.lean) and the hand-written models
+THEOREM_MODULES.append("Yarel.Props.FnsTie.Pacing")
+REQUIRED_THEOREMS += ['allocate_raw_tie', 'collect_if_required_tie', 'collect_tie', 'alloc_glued_is_model']
+
+
 def census(stats):
     out = {}
     for name, count, roots in stats["by_type"]:
